@@ -9,7 +9,10 @@ the crate `""`): the reconciled, sorted item lists — everything `generate_type
 same for every permutation of the arrivals.  Hash iteration order enters the model only through
 the explicit parameters `imports` / `firstOther` / `pick` of `Pipeline.resolveRenamed`,
 `Pipeline.usedImports` and `Visitor.reconcileReferencedTypes`; in single-file mode
-`import_types` is empty, so they are never consulted (`resolve_no_imports`).
+`import_types` is empty, so they are never consulted (`resolve_no_imports`).  In multi-file mode
+they are consulted, and `Props/C06_Multi.lean` shows that the result does not depend on them
+(each look-up takes the candidate with the smallest crate name since the `fix:` commit "resolve a
+type name imported from several crates the same way in every run").
 -/
 namespace TsV.C06
 open TsV TsV.Pipeline TsV.Collect
@@ -34,7 +37,7 @@ theorem merged_imports_nil : ∀ (a : List ParsedData) (acc : ParsedData),
 theorem resolve_no_imports (c : Str) (r : Renames) (id : Str) :
     resolveRenamed c r [] id = (if hasRename r id then renameOf r id c else none) := by
   unfold resolveRenamed
-  by_cases h : hasRename r id = true <;> simp [h]
+  by_cases h : hasRename r id = true <;> simp [h, minByKey]
 
 /-- what `generate_types` reads of one crate -/
 def view (p : Str × ParsedData) :
